@@ -992,11 +992,12 @@ def estimate(seq,label=None):
     if isinstance(mu,complex):
         u,r = standard_uncertainty(seq,mu)
         return ucomplex(
-            mu,u[0],u[1],
-            r if r != 0.0 else None,    # an independent Leaf has no correlation register
-            df,
+            mu,u[0],u[1],r,df,
             label,
-            independent = (r == 0.0)
+            # The components are estimated from one sample: always
+            # one dependent pair (any combination then has df dof),
+            # also when the sample correlation is zero.
+            independent = False
         )
        
     else:
